@@ -18,6 +18,9 @@ type Violation struct {
 	Site   string `json:"site"`
 	Detail string `json:"detail"`
 	Step   int    `json:"step"`
+	// ReplayOpt: scenario options that reproduce this violation on their own
+	// (set by enumerating scenarios; merged into Params.Opt for replay).
+	ReplayOpt map[string]string `json:"replay_opt,omitempty"`
 }
 
 type Result struct {
